@@ -66,3 +66,30 @@ package scorch
 //@   requires s != nil && len(liveSnapshots) > 0 && forall(k, 0, len(liveSnapshots), liveSnapshots[k] != nil) && 0 <= s.numSnapshotsToKeep && s.numSnapshotsToKeep < 1073741824
 //@   ensures result != nil && in(result, liveSnapshots[0].epoch)
 //@   loop 0: invariant protectedEpochs != nil && fresh(protectedEpochs) && in(protectedEpochs, latestSnapshot.epoch) && latestSnapshot == liveSnapshots[0] && 1 <= i && 0 <= numProtected && numProtected <= 1073741825 + i
+
+// the live snapshots of the metadata store, newest first (trusted: bolt cursors and closures)
+//@ func Scorch.getLiveSnapshots
+//@   props C12 C13
+//@   mode int
+//@   trusted walks bolt buckets with cursors and closures
+//@   requires s != nil
+//@   ensures implies(result1 == nil, forall(k, 0, len(result0), result0[k] != nil))
+//@ func newCheckPoints
+//@   props C13
+//@   mode int
+//@   trusted sorting by time stamp (sort.SliceStable with a closure) is not under contract
+
+// Removing old snapshots from the metadata store: only epochs that were eligible and are not
+// protected are deleted; the protected ones stay eligible for a later round; the write
+// transaction is committed or rolled back; the root lock is released.
+//@ func Scorch.removeOldBoltSnapshots
+//@   props C12 C13
+//@   mode int
+//@   locks
+//@   requires s != nil && s.rootBolt != nil && !held(s.rootLock) && rheld(s.rootLock) == 0 && 0 <= s.numSnapshotsToKeep && s.numSnapshotsToKeep < 1073741824 && openTx >= 0 && openTx < 1000000
+//@   modifies fields(Scorch), lock(s.rootLock), openTx, bbolt.Tx.open
+//@   at call snapshots.DeleteBucket#0: assert !in(protectedSnapshots, epochToRemove)
+//@   ensures !held(s.rootLock) && rheld(s.rootLock) == 0 && openTx == old(openTx)
+//@   loop 0: invariant held(s.rootLock) && rheld(s.rootLock) == 0 && protectedSnapshots != nil && (cap(epochsToRemove) == 0 || fresh(epochsToRemove)) && (cap(newEligible) == 0 || fresh(newEligible)) && openTx == old(openTx)
+//@   loop 0: invariant forall(k, 0, len(epochsToRemove), !in(protectedSnapshots, epochsToRemove[k])) && forall(k, 0, len(newEligible), in(protectedSnapshots, newEligible[k]))
+//@   loop 1: invariant !held(s.rootLock) && rheld(s.rootLock) == 0 && tx != nil && tx.Tx != nil && tx.Tx.open && snapshots != nil && openTx == old(openTx) + 1 && forall(k, 0, len(epochsToRemove), !in(protectedSnapshots, epochsToRemove[k])) && 0 <= numRemoved && numRemoved <= iter
